@@ -216,5 +216,20 @@ TEXT = {
         note=COMMON_NOTE,
         technique="TLA+ trace validation with TLC; representation pinned exactly (sign, digits, scale)",
         ref="DESIGN.md section 7 C18"),
+    "C19": dict(
+        level="Machine.tla is the decimal machine: registers holding representations, a ghost holding exact values on normal "
+              "forms, one action per exact operation, and a NON-DETERMINISTIC representation of every result. MC_Programs (TLC, "
+              "exhaustive: all programs of 2 (quick) / 3 (thorough) operations over a pool of special operands - zero with a "
+              "scale, one written 1.00, powers of ten, value-equal twins, both signs - and every representation choice of every "
+              "intermediate) shows register values, comparisons, equality and hash keys never depend on representations. "
+              "Gen_Programs (TLC -simulate, 1500 / 30000 behaviours of 40 steps, six registers, digit-growth guard carried in "
+              "the state) generates programs whose every step names its overload (386 spellings of + - *, neg/abs/double/half/"
+              "square/upward rescale/normalize/clone through references/sum) with cmp / == / hash observations in between; the "
+              "harness executes them on the crate, and TLC validates every step against its own register state, "
+              "resynchronising after each result so that one defect cannot hide the next. The harness adds 500 / 6000 programs "
+              "with operands to 150/400 digits and primitive MIN/MAX operands.",
+        note=COMMON_NOTE,
+        technique="TLC model checking of the decimal machine (MC_Programs) + TLC -simulate generated programs replayed on the crate + stateful TLA+ trace validation",
+        ref="DESIGN.md section 7 C19"),
 }
 NA = {}
